@@ -171,6 +171,11 @@ func (fr *frame) applyCall(cc *ssa.CallCommon, st *bstate, site ssa.Instruction,
 			rn := types.TypeString(cc.Value.Type(), nil)
 			spec = f.e.specs.funcs["("+rn+")."+cc.Method.Name()]
 		}
+		if fr.spec != nil {
+			if cs, ok := fr.spec.CallSpecs[valueLabel(cc.Value)+"."+cc.Method.Name()]; ok {
+				spec = cs // a callspec of the enclosing function for this receiver's method
+			}
+		}
 		pnames = append(pnames, "self")
 		sig := cc.Method.Type().(*types.Signature)
 		for i := 0; i < sig.Params().Len(); i++ {
@@ -863,8 +868,9 @@ func (fr *frame) lockHooks(cc *ssa.CallCommon, args []Val, st *bstate, before bo
 					st.heap = nh
 					cur = nv
 				}
-				// contents of a guarded map
-				if mt, ok := ft.Underlying().(*types.Map); ok {
+				// contents of a guarded map that stays the same object (if the field itself was
+				// replaced, the new object's contents are unknown anyway)
+				if mt, ok := ft.Underlying().(*types.Map); ok && isFinalRef {
 					vk, dk, okv := f.mapKeys(mt)
 					if dk != "" {
 						arr := f.hs.read(st.heap, dk)
@@ -883,6 +889,9 @@ func (fr *frame) lockHooks(cc *ssa.CallCommon, args []Val, st *bstate, before bo
 				}
 			}
 		}
+	}
+	if fr.top || fr.depth <= 1 {
+		f.lastLockHeap = st.heap // snapshot for atlock(...)
 	}
 	// invariants "under lock" are assumed after acquisition
 	for _, inv := range ts.Invs {
@@ -936,7 +945,21 @@ func (fr *frame) checkGuardedAccess(addr ssa.Value, st *bstate, write bool, pos 
 			if strings.HasPrefix(base.Tm, "(- ") || strings.HasPrefix(base.Tm, "alloc!") {
 				return // object under construction in this call
 			}
-			held := f.lockHeld(st.heap, f.faddr(base.Tm, T, li))
+			root := fr.fn
+			for root.Parent() != nil {
+				root = root.Parent()
+			}
+			for _, c := range append(append([]string{}, ts.Ctors...), ts.Inits...) {
+				if c == root.Name() {
+					return // constructor / construction-time setter: the object is not yet shared
+				}
+			}
+			lockAddr := f.faddr(base.Tm, T, li)
+			if _, isPtr := stt.Field(li).Type().Underlying().(*types.Pointer); isPtr {
+				// the lock is referenced through a pointer field (a lock shared with another object)
+				lockAddr = app("select", f.hs.read(st.heap, f.fieldKey(base.Tm, T, li)), base.Tm)
+			}
+			held := f.lockHeld(st.heap, lockAddr)
 			mode := "read"
 			goal := app(">=", held, "1")
 			if write {
@@ -1082,6 +1105,9 @@ func (fr *frame) checkTypeInvariants(st *bstate) {
 			if !f.e.active(inv.Tags) || fr.isCtorOf(ts) && false {
 				continue
 			}
+			if !fr.invTouched(ts, inv, fr.vals[p], f.entryHeap, st.heap) {
+				continue // the function itself writes nothing the invariant reads
+			}
 			env := f.newEnv(ts.Pkg, st.heap, fr.oldHeap, map[string]Val{"self": fr.vals[p]}, nil)
 			// callees are assumed to preserve the invariants of the objects they are handed
 			// (each function that writes the fields is itself checked): unknown calls are
@@ -1149,7 +1175,7 @@ func (fr *frame) checkFieldStore(addr ssa.Value, st *bstate, pos token.Pos) {
 		return false
 	}
 	for _, fn := range ts.Final {
-		if fn == fname && !isMethodOf(ts.Ctors) && f.e.active(ts.FinalTags) {
+		if fn == fname && !isMethodOf(ts.Ctors) && !isMethodOf(ts.Inits) && f.e.active(ts.FinalTags) {
 			f.oblige(st, fmt.Sprintf("%s#frame:final:%s.%s", fnShortName(fr.fn), ts.Name, fname), "frame", ts.FinalTags, "false",
 				fmt.Sprintf("%s.%s is declared final: written only by %v", ts.Name, fname, ts.Ctors), posStr(f.e.fset, pos))
 		}
@@ -1408,7 +1434,7 @@ func (nf *frame) boundaryInvariants(st *bstate, caller *frame) {
 			if ve, err := envE.evalBool(inv.E); err == nil {
 				v0 = implies(ve, v0)
 			}
-			if caller.spec == nil || !caller.spec.Helper {
+			if (caller.spec == nil || !caller.spec.Helper) && caller.invTouched(ts, inv, nf.vals[p], f.entryHeap, st.heap) {
 				f.oblige(st, fmt.Sprintf("%s#call:%s:type-invariant:%s:%s", fnShortName(caller.fn), shortCallee(nf.fn.String()), ts.Name, clauseLabel(inv)), "type-invariant", inv.Tags, v0, inv.Src, inv.Line)
 			}
 			v, err := env.evalBool(inv.E)
@@ -1473,4 +1499,37 @@ func (fr *frame) keepMonotone(pre *Heap, st *bstate) {
 			f.assume(st, app(">=", b, a), "monotone ghost "+name)
 		}
 	}
+}
+
+// invTouched: does the function itself (not its unknown callees) write a heap
+// key the invariant reads, on the way from `from` to `to`?
+func (fr *frame) invTouched(ts *TypeSpec, inv *Clause, self Val, from, to *Heap) bool {
+	f := fr.f
+	f.hs.readLog = map[string]bool{}
+	env := f.newEnv(ts.Pkg, to, to, map[string]Val{"self": self}, nil)
+	_, err := env.evalBool(inv.E)
+	fp := f.hs.readLog
+	f.hs.readLog = nil
+	if err != nil {
+		return true
+	}
+	lf := &loopFrame{keys: map[string]map[string]bool{}}
+	f.frameMode = true
+	collectWrites(f, to, from, lf, map[*Heap]bool{})
+	f.frameMode = false
+	for k, objs := range lf.keys {
+		if !fp[k] {
+			continue
+		}
+		onlyInterf := true
+		for o := range objs {
+			if !strings.HasPrefix(o, "interf:") {
+				onlyInterf = false
+			}
+		}
+		if !onlyInterf {
+			return true
+		}
+	}
+	return false
 }
